@@ -32,6 +32,11 @@ CLAIMS["C04"] = ("bounded symbolic execution (symx) of the real PDFPage.get_page
          "tree of up to 3 (thorough 4) nodes with symbolic Kids (repeats, cycles), Type and placement (absent/direct/indirect, incl. falsy values) of each inheritable attribute the pages equal a "
          "pre-order DFS with nearest-ancestor inheritance; Rotate is normalised for every int; for every real MediaBox and Rotate=90k+360t the page CTM is the clockwise rotation onto (0,0,W,H).",
          "4.C04")
+CLAIMS["C05"] = ("bounded symbolic execution (symx, real arithmetic) of the real PDFPageInterpreter.do_* text/graphics-state operators, PDFTextDevice.render_string*, render_char and LTChar against a reference interpreter of ISO 32000-1 9.3-9.4",
+         "For every program BT Tf + K operators chosen symbolically from 22 (K=2 quick, 3 thorough) + Tj with ALL operands, font size and glyph widths symbolic reals, each glyph's matrix, advance, "
+         "bounding box (axis-aligned case), font and fill colour equal the text model's (polynomial identities discharged by normalisation or by z3); spacing/scaling/rise with TJ adjustments, a form "
+         "XObject with symbolic Matrix leaving the caller's state untouched, stream splitting and ill-typed operands are covered by further harnesses. Bounded; floats as reals.",
+         "4.C05")
 NA = {}
 def main():
     props = [json.loads(l) for l in open(os.path.join(ROOT, "properties.jsonl"))]
